@@ -45,10 +45,11 @@ section
 variable {α P : Type} [CommRing α] [Amp α P] [SimAmp α]
 variable {n : Nat} {valid : GateTerm P → List Nat → Prop} {nz : α → Prop}
 
-/-- the norm test handed to the reference semantics is exact: it accepts precisely the vectors whose
-squared norm is invertible (for a field: non-zero) -/
+/-- the norm test handed to the reference semantics accepts every vector whose squared norm is invertible (for a
+field: every non-zero vector).  The exact test "`normSqSum v ≠ 0`" of a field satisfies it; the laxer the test,
+the weaker the statement "the record is a candidate of `Spec.replay`", so instantiate with the exact one. -/
 def NonzeroOK (nonzero : List α → Bool) : Prop :=
-  ∀ v : List α, nonzero v = true ↔ ∃ u : α, normSqSum v * u = 1
+  ∀ v : List α, (∃ u : α, normSqSum v * u = 1) → nonzero v = true
 
 /-- the reference state of a related pair has an invertible squared norm: the replay has non-zero weight -/
 theorem Rel.weight (ha : LawfulAmp α P) (hs : LawfulSim α P nz) {col ψ : List α} (h : Rel n col ψ) :
@@ -58,7 +59,7 @@ theorem Rel.weight (ha : LawfulAmp α P) (hs : LawfulSim α P nz) {col ψ : List
 
 theorem Rel.nonzero (ha : LawfulAmp α P) (hs : LawfulSim α P nz) {nonzero : List α → Bool}
     (hnzb : NonzeroOK nonzero) {col ψ : List α} (h : Rel n col ψ) : nonzero ψ = true :=
-  (hnzb ψ).mpr (h.weight ha hs)
+  hnzb ψ (h.weight ha hs)
 
 variable {sc : List α → Nat → Prop}
 
